@@ -400,7 +400,20 @@ func (propC16) Exec(x any, choices []int32) RunOut {
 			}
 		}
 		if running {
+			w.stopCall = append(w.stopCall, simrt.Step())
 			pool.Stop()
+			w.stopRet = append(w.stopRet, simrt.Step())
+		}
+		// no job starts after Stop has returned: a job handed to Send before a Stop was invoked
+		// must not start after that Stop returned (not even in a later Run)
+		for _, j := range w.jobs {
+			for _, st := range j.startStep {
+				for k := range w.stopRet {
+					if k < len(w.stopCall) && j.sendCall < w.stopCall[k] && st > w.stopRet[k] {
+						w.fail("job-after-stop", j.kind, fmt.Sprintf("job %d (%s, phase %d) was handed to Send at step %d, before Stop was invoked at step %d; it started at step %d, after that Stop had returned at step %d", j.id, j.kind, j.phase, j.sendCall, w.stopCall[k], st, w.stopRet[k]))
+					}
+				}
+			}
 		}
 	})
 	if timerInSend > 0 {
